@@ -672,3 +672,64 @@ Proof.
 Qed.
 
 End Unroll.
+
+(* ------------------------------------------------------------------ the tokens of a balanced segment form a forest *)
+Lemma LitSem_build seg tk : LitSem seg tk ->
+  exists its, forall k cur st, build (tk ++ k) cur st = build k (rev its ++ cur) st.
+Proof.
+  induction 1 as [|id text rest t _ [its IH]|id text body tb rest t _ [itsb IHb] _ [itsr IHr]].
+  - exists []. reflexivity.
+  - exists (IRow id text :: its). intros k cur st. cbn [app build rev]. rewrite IH, <- app_assoc. reflexivity.
+  - exists (IGroup id itsb :: itsr). intros k cur st. cbn [app build rev].
+    rewrite <- app_assoc. rewrite IHb. cbn [app build]. rewrite IHr.
+    rewrite app_nil_r, rev_involutive, <- app_assoc. reflexivity.
+Qed.
+
+Lemma LitSem_shape seg evs : LitSem seg (rtoks evs) -> exists its, shape (rev evs) = Some its.
+Proof.
+  intros H. destruct (LitSem_build _ _ H) as [its Hb]. exists its. unfold shape. fold (rtoks evs).
+  rewrite <- (app_nil_r (rtoks evs)), Hb. cbn [build]. rewrite app_nil_r, rev_involutive. reflexivity.
+Qed.
+
+(* ------------------------------------------------------------------ 4. whole sheets *)
+Lemma sheet_fuel_enough rows : length rows - 0 < sheet_fuel rows.
+Proof. unfold sheet_fuel. nia. Qed.
+
+(* the parser at the end of the sheet, in the root block *)
+Lemma root_end pol scope emp tol rows c lg :
+  parse_block pol scope emp tol rows 1 (mkP (length rows) c lg) BRoot false = ROk (mkP (length rows) c lg).
+Proof.
+  cbn [parse_block]. unfold next_row. cbn [p_pos].
+  assert (Hn : nth_error rows (length rows) = None) by (apply nth_error_None; lia).
+  rewrite Hn. reflexivity.
+Qed.
+
+(* THE UNROLLING THEOREM, for any fuel: if the parser (the code after the two repairs: shadowed
+   bindings restored, empty loops skipped; remove_from_context tolerant or not) reads the sugared
+   sheet [rows] successfully from context [c], then the desugaring succeeds, the desugared sheet is
+   literal (no loop, no include_if, no reference), the parser — under ANY loop policies, from the
+   EMPTY context — reads it successfully with every sufficient fuel, FlowParser is handed the same
+   rows and pushes/registers the same groups in the same order, and the context is [c] again *)
+Theorem desugar_equiv_fuel pol tol scope' emp' tol' rows f c s :
+  parse_block pol ScopeRestore EmptySkip tol rows f (mkP 0 c []) BRoot false = ROk s ->
+  exists rows' s',
+    ds pol f rows c BRoot false = ROk (rows', skipn (p_pos s) rows)
+    /\ forallb row_is_plain_literal rows' = true
+    /\ (forall g, length rows' < g ->
+          parse_block pol scope' emp' tol' rows' g (mkP 0 [] []) BRoot false = ROk s')
+    /\ toks (rev (p_log s')) = toks (rev (p_log s))
+    /\ (exists its, shape (rev (p_log s)) = Some its)
+    /\ p_ctx s = c /\ p_ctx s' = [].
+Proof.
+  intros H. destruct (unroll_ok pol tol rows f _ _ _ _ H) as [out [evs [Hd [Hl [Hs _]]]]].
+  cbn [p_pos p_ctx p_log skipn] in Hd, Hl. rewrite app_nil_r in Hl.
+  destruct (lit_run pol scope' emp' tol' _ _ Hs out 0 [] [] (At_self out)) as [evs' [Ht Hrun]].
+  destruct (Hrun BRoot 1 _ (root_end pol scope' emp' tol' out [] (evs' ++ []))) as [f' Hf'].
+  exists out, (mkP (length out) [] (evs' ++ [])). repeat split.
+  - exact Hd.
+  - exact (LitSem_literal _ _ Hs).
+  - intros g Hg. refine (fuel_irrelevant _ _ _ _ _ _ _ _ _ _ _ Hf' ltac:(discriminate) _). cbn [p_pos]. lia.
+  - cbn [p_log]. rewrite app_nil_r, Hl. exact Ht.
+  - rewrite Hl. exact (LitSem_shape _ _ Hs).
+  - exact (ctx_preserved _ _ _ _ _ _ _ _ _ H).
+Qed.
